@@ -313,8 +313,201 @@ func (w *worldA) Generate(r *simrt.Rand, profile, tier string) any {
 		}
 	}
 	s.FinalStop = r.Bool(30)
+	w.tweak(r, s, end)
 	sortEvents(s.Events)
 	return s
+}
+
+var c06Alphabet = []string{"", "a", "b", "ab", "bc", "c", ",", "a,b", "b,c", "/", "a/b", "a\x00b", ".", "..", "xxxxxxxxxxxxxxxxxxxxxxxxxxxxxxxxxxxxxxxxxxxxxxxxxxxxxxxxxxxxxxxxxxxxxxxx"}
+
+// hostile material for C07, produced by grammar mutation of a valid record
+func hostileLine(r *simrt.Rand, n int) string {
+	valid := fmt.Sprintf("<13>1 2024-03-05T10:20:30Z host app 42 - - hostile payload number %d with padding", n)
+	switch r.Intn(24) {
+	case 0:
+		return "<\n"
+	case 1:
+		return "<>\n"
+	case 2:
+		return strings.Replace(valid, "<13>1", "<1a>1", 1) + "\n"
+	case 3:
+		return strings.Replace(valid, "<13>1", "<999>1", 1) + "\n"
+	case 4:
+		return strings.Replace(valid, "<13>1", "<13>2", 1) + "\n"
+	case 5: // NIL timestamp
+		return strings.Replace(valid, "2024-03-05T10:20:30Z", "-", 1) + "\n"
+	case 6: // truncated timestamp
+		return strings.Replace(valid, "2024-03-05T10:20:30Z", "2024-03-05T10:2", 1) + "\n"
+	case 7: // missing tokens
+		return "<13>1 2024-03-05T10:20:30Z hostonlyxxxxxxxxxxxxxxxxxxxxxxxxxxxxxxxx\n"
+	case 8: // first token shorter than the parser expects, reaches it as an untested leading block
+		return "< aaaaaaaaaaaaaaaaaaaaaaaaaaaaaaaaaaaaaaaaaaaaaaaaaa\n"
+	case 9: // oversize header field
+		return strings.Replace(valid, " host ", " "+strings.Repeat("h", 1500+r.Intn(3000))+" ", 1) + "\n"
+	case 10: // oversize message
+		return valid + strings.Repeat("m", 900+r.Intn(3000)) + "\n"
+	case 11: // line longer than the line buffer, no newline for a long time
+		return strings.Repeat("z", 5000+r.Intn(3000)) + "\n"
+	case 12: // invalid UTF-8 in header fields (several become Prometheus label values)
+		return strings.Replace(valid, " host app ", " h\xff\xfe ap\xc3\x28p ", 1) + "\n"
+	case 13: // NUL bytes
+		return strings.Replace(valid, " host app ", " h\x00st a\x00p ", 1) + "\n"
+	case 14:
+		return "\n\n\n"
+	case 15: // binary
+		b := make([]byte, 40+r.Intn(200))
+		for i := range b {
+			b[i] = byte(r.Intn(256))
+		}
+		return string(b) + "\n"
+	case 16: // a record cut off without newline: whatever follows is glued to it
+		return valid[:20+r.Intn(40)]
+	case 17: // huge timestamp-looking token
+		return strings.Replace(valid, "2024-03-05T10:20:30Z", "2024-03-05T10:20:30."+strings.Repeat("9", 40)+"Z", 1) + "\n"
+	case 18: // timezone garbage
+		return strings.Replace(valid, "2024-03-05T10:20:30Z", "2024-03-05T10:20:30+9x:zz", 1) + "\n"
+	case 19: // invalid UTF-8 at the cut point of an oversize message
+		return valid + strings.Repeat("\xe2\x82", 700) + "\n"
+	case 20: // empty tokens
+		return "<13>1        msg with only spaces before it, long enough to pass the length test\n"
+	case 21: // escape sequences
+		return valid + " \\n\\t\\b\\\\ \\x \\" + "\n"
+	case 22: // marker field with odd bytes
+		return strings.Replace(valid, " - - ", " dropme\xff - ", 1) + "\n"
+	}
+	return strings.Replace(valid, "<13>1", "<191>1", 1) + "\n"
+}
+
+// tweak adapts the generic scenario to the property profile
+func (w *worldA) tweak(r *simrt.Rand, s *AScenario, end int) {
+	restarts := func(n int) {
+		for i := 0; i < n; i++ {
+			s.Events = append(s.Events, AEvent{AtMs: r.Intn(end + 5000), Kind: "restart"})
+		}
+	}
+	switch s.Profile {
+	case "limits":
+		s.QueueCap = r.Range(2, 12)
+		s.MaxBufBytes = r.Range(300, 20000)
+		s.MemCap = r.Range(2, 4)
+	case "c05":
+		s.IBufLogs = []int{2, 3, 4}[r.Intn(3)]
+		s.ChunkMaxRecs = []int{1, 2, 3}[r.Intn(3)]
+		s.MemCap = r.Range(2, 4)
+		if len(s.KeyTuples) > 3 {
+			s.KeyTuples = s.KeyTuples[:3]
+		}
+	case "c06":
+		nk := 1 + r.Intn(3)
+		s.Keys = [][]string{{"app"}, {"app", "pid"}, {"app", "level", "pid"}}[nk-1]
+		s.Tag = [][]string{{"t.$app", "x-${app[:2]}"}, {"t.$app.$pid", "x-${app[:2]}-$pid", "$app$pid"}, {"t.$app.$level.$pid", "$pid-${app[-1:]}-$level"}}[nk-1][r.Intn(2)]
+		s.KeyTuples = nil
+		// colliding concatenations and separators first, then random picks from the alphabet
+		seeds := [][]string{{"ab", "c"}, {"a", "bc"}, {"a,b", "c"}, {"a", "b,c"}, {"", "a"}, {"a", ""}, {",", ""}, {"", ","}, {"a/b", "c"}, {"a", "b"}}
+		for i, n := 0, 2+r.Intn(5); i < n; i++ {
+			var app, pid string
+			if r.Bool(60) {
+				p := seeds[r.Intn(len(seeds))]
+				app, pid = p[0], p[1]
+			} else {
+				app, pid = c06Alphabet[r.Intn(len(c06Alphabet))], c06Alphabet[r.Intn(len(c06Alphabet))]
+			}
+			s.KeyTuples = append(s.KeyTuples, []string{app, fmt.Sprint(3 + r.Intn(3)), pid})
+		}
+		s.MemCap = 2
+		s.Upstream = nil
+		for i, n := 0, r.Intn(4); i < n; i++ {
+			s.Upstream = append(s.Upstream, []AUp{{Kind: "never_ack"}, {Kind: "healthy"}, {Kind: "refuse"}}[r.Intn(3)])
+		}
+		s.Events = nil
+		restarts(r.Pick(1, 3, 2))
+		s.FinalStop = r.Bool(20)
+	case "c07", "c07big":
+		n := 0
+		for ci := range s.Clients {
+			for bi := range s.Clients[ci].Bursts {
+				bu := &s.Clients[ci].Bursts[bi]
+				var recs []ARec
+				for _, rec := range bu.Recs {
+					if r.Bool(45) {
+						n++
+						recs = append(recs, ARec{Raw: hostileLine(r, n)})
+					}
+					recs = append(recs, rec)
+				}
+				bu.Recs = recs
+			}
+		}
+		// a last, clean connection after the hostile phase
+		s.Clients = append(s.Clients, AClient{StartMs: end + 3000, Bursts: []ABurst{{Recs: []ARec{{Key: 0}, {Key: 0, TS: 1}}}}})
+		s.Upstream = nil
+		s.Events = nil
+		s.FinalStop = false
+		s.HealAtMs = 0
+		if s.Profile == "c07big" {
+			s.MsgMax = 1024 * 1024
+		}
+	case "c11":
+		s.ChunkMaxBytes = []int{200, 300, 600, 2000, 65536}[r.Intn(5)]
+		s.ChunkMaxRecs = []int{0, 1, 2, 3, 10}[r.Intn(5)]
+		s.MemCap = r.Range(2, 5)
+		for ci := range s.Clients {
+			for bi := range s.Clients[ci].Bursts {
+				for ri := range s.Clients[ci].Bursts[bi].Recs {
+					rec := &s.Clients[ci].Bursts[bi].Recs[ri]
+					if r.Bool(50) {
+						// serialized sizes around the chunk limit
+						rec.Fill = max(0, s.ChunkMaxBytes/(1+r.Intn(3))-130+r.Intn(60))
+						if rec.Fill > 900 {
+							rec.Fill = r.Intn(900)
+						}
+					}
+				}
+			}
+		}
+	case "c12":
+		s.PoolMin = 32
+		s.PoolMode = 1
+		for ci := range s.Clients {
+			for bi := range s.Clients[ci].Bursts {
+				bu := &s.Clients[ci].Bursts[bi]
+				bu.CutAt = 0
+				for ri := range bu.Recs {
+					rec := &bu.Recs[ri]
+					switch r.Intn(5) {
+					case 0:
+						rec.Multi = 1 + r.Intn(2)
+					case 1:
+						rec.Fill = 100 + r.Intn(700)
+					case 2:
+						rec.Fill = r.Intn(30)
+					}
+				}
+			}
+		}
+	case "c17a":
+		s.Reloader = true
+		s.Events = nil
+		for i, n := 0, 1+r.Intn(3); i < n; i++ {
+			s.Events = append(s.Events, AEvent{AtMs: r.Intn(end + 3000), Kind: []string{"sighup_valid", "sighup_valid", "sighup_invalid", "sighup_incompatible"}[r.Intn(4)]})
+		}
+		if r.Bool(25) {
+			restarts(1)
+		}
+	case "c18":
+		s.Events = nil
+		restarts(1 + r.Intn(3))
+		s.FinalStop = true
+		s.HealAtMs = end + 60000
+		if len(s.Upstream) < 3 {
+			for i := 0; i < 4; i++ {
+				s.Upstream = append(s.Upstream, genFaultyUp(r, s))
+			}
+		}
+		s.MemCap = r.Range(2, 8)
+	case "c19":
+		// the equations are asserted on runs without reachable limits
+	}
 }
 
 func sortEvents(ev []AEvent) {
@@ -471,6 +664,9 @@ func (w *worldA) Run(t *testing.T, profile string, sc any, cfg simrt.Config) *Ou
 	r := &aRun{s: s, out: out}
 	logger.SetOutput(&r.logbuf)
 	logger.SetLogLevel(logger.InfoLevel)
+	if os.Getenv("VERIF_DEBUG") != "" {
+		logger.SetLogLevel(logger.DebugLevel)
+	}
 	if aTmpDir == "" {
 		d, err := os.MkdirTemp("", "verif-cfg-")
 		if err != nil {
@@ -612,7 +808,11 @@ func (r *aRun) stopAgent() {
 	})
 	took := simrt.Now() - t0
 	st := aStop{Gen: a.gen, At: t0, Took: took, BugLines: strings.Count(r.logbuf.String(), "BUG:") - bug0}
-	st.Metrics = parseMetrics(promext.DumpMetricsFrom("", true, false, r.currentLoader().GetMetricQuerier()))
+	dump := promext.DumpMetricsFrom("", true, false, r.currentLoader().GetMetricQuerier())
+	if os.Getenv("VERIF_DUMP_METRICS") != "" {
+		fmt.Fprintln(os.Stderr, dump)
+	}
+	st.Metrics = parseMetrics(dump)
 	// the process exits
 	simrt.FreezeGen(a.gen)
 	r.fs.DropHandlesOf(a.gen)
